@@ -188,8 +188,10 @@ def search(ctx, protos, per, exhaustive_limit):
                 with engine.class_guard(p['cls']):
                     got, err = decode_first_group(p, c.normalized_rlc)
                 if got is None:
-                    kind = 'undecodable: ' + str(err)
-                    detail = dict(frames=c.normalized_rlc[:2])
+                    # one defect class per protocol: the decoder rejects the encoder's own frames (the error kind varies with
+                    # the operands and is kept in the replay)
+                    kind = 'undecodable'
+                    detail = dict(frames=c.normalized_rlc[:2], error=str(err))
                 else:
                     bad = []
                     for k, v in a.items():
